@@ -140,7 +140,13 @@ func (s *Stream) Token() (interface{}, error) {
 			bytes := floatBytes(s)
 			str := *(*string)(unsafe.Pointer(&bytes))
 			if s.UseNumber {
+				if !isValidNumber(bytes) {
+					return nil, errInvalidNumber(bytes, s.totalOffset())
+				}
 				return json.Number(str), nil
+			}
+			if !isValidNumber(bytes) {
+				return nil, errInvalidNumber(bytes, s.totalOffset())
 			}
 			f64, err := strconv.ParseFloat(str, 64)
 			if err != nil {
